@@ -393,4 +393,35 @@ theorem segSlots_all (marks : List Marked) (h : marks.all (·.2) = true) :
     simp only [flatOf] at this ⊢
     simp [segSlots, h.1, this]
 
+/-- where the timed-out blocks of a pass come from: only blocks whose rebuild failed at this very pass -/
+theorem pendList_tmo_origin (pool : Pool) (now timeout : Int) (l : List Pend) (keep : List Pend)
+    (posted : List (Slots × Pend)) (tmo : List Pend) (h : pendList pool now timeout l = .ok (keep, posted, tmo))
+    (x : Pend) (hx : x ∈ tmo) :
+    ∃ pd ∈ l, ∃ r, build pool pd = .ok r ∧ r.done = false ∧ now - pd.recvT ≥ timeout ∧ x = r.pd := by
+  induction l generalizing keep posted tmo with
+  | nil => simp [pendList] at h; obtain ⟨_, _, rfl⟩ := h; simp at hx
+  | cons a rest ih =>
+    unfold pendList at h
+    split at h
+    · simp at h
+    · rename_i ra hra
+      split at h
+      · simp at h
+      · rename_i keep' posted' tmo' hrest
+        have lift : x ∈ tmo' → ∃ pd ∈ a :: rest, ∃ r, build pool pd = .ok r ∧ r.done = false ∧ now - pd.recvT ≥ timeout ∧ x = r.pd := by
+          intro hx'
+          obtain ⟨pd, hpd, r, h1, h2, h3, h4⟩ := ih keep' posted' tmo' hrest hx'
+          exact ⟨pd, by simp [hpd], r, h1, h2, h3, h4⟩
+        split at h
+        · split at h <;> (simp at h; obtain ⟨_, _, rfl⟩ := h; exact lift hx)
+        · rename_i hnd
+          split at h
+          · rename_i hlate
+            simp at h; obtain ⟨_, _, rfl⟩ := h
+            simp at hx
+            rcases hx with rfl | hx
+            · exact ⟨a, by simp, ra, hra, by simpa using hnd, hlate, rfl⟩
+            · exact lift hx
+          · simp at h; obtain ⟨_, _, rfl⟩ := h; exact lift hx
+
 end C33
